@@ -16,6 +16,7 @@ RULE = ("each case: one scenario (two-body chain with revolute + body-body joint
         "distinct = scenario + solver + k; non-trivial = 0 < k < N and the state at k differs from the initial state")
 ASSUMPTIONS = ["solver tolerances 1e-10; trajectories must agree within 1e-6*(1+|q|) over all common steps (restart changes only warm starts of the iterations)",
                "a state reached by a solver that does not enforce position- and velocity-level constraints together (Moreau, BackwardEuler, ScipyIVP) is re-initialised with compute_consistent_initial_conditions=False, otherwise with the default options",
+               "a Rattle state in which a contact is open by less than assembly's closing tolerance (1e-8) and still approaching is re-initialised without the consistency assertions as well (assembly would call it 'g_N_dot0' inconsistent; counted)",
                "model identity: body-fixed joint point / axes, revolute angle at probe states, fixed distance, contact radius and friction data must be unchanged (1e-9)"]
 REQUIRED_MONITORS = ["restart", "trajectory", "model_identity"]
 META = {
@@ -25,8 +26,8 @@ META = {
 }
 CASE_TIMEOUT = 600
 WALL_BUDGET = {"quick": 1200, "thorough": 7200}
-SCEN = {"chain": ["Rattle", "BackwardEuler"], "wound": ["Rattle", "BackwardEuler", "ScipyIVP"], "ball": ["Moreau", "Rattle", "BackwardEuler"],
-        "balls": ["Moreau", "Rattle"], "maxwell": ["Rattle", "Moreau", "ScipyIVP"]}
+SCEN = {"chain": ["Rattle", "BackwardEuler"], "wound": ["Rattle", "BackwardEuler", "ScipyIVP", "Moreau"], "ball": ["Moreau", "Rattle", "BackwardEuler"],
+        "balls": ["Moreau", "Rattle"], "maxwell": ["Rattle", "Moreau", "ScipyIVP"], "carrier": ["Moreau", "BackwardEuler", "Rattle"]}
 GRAV = np.array([0, 0, -9.81])
 DT = 5e-3
 
@@ -37,7 +38,9 @@ def cases(tier, seed):
     for r in range(reps):
         for sc, solvers in SCEN.items():
             for sv_ in solvers:
-                out.append({"scenario": sc, "solver": sv_, "rep": r, "all_k": tier == "thorough"})
+                # (wound + Moreau: every split step also in the quick tier - the step in which the joint completes its turn is
+                #  the interesting restart point, and Moreau evaluates the joint at the midpoint, not at the stored state)
+                out.append({"scenario": sc, "solver": sv_, "rep": r, "all_k": tier == "thorough" or (sc == "wound" and sv_ == "Moreau")})
     return out
 
 
@@ -51,7 +54,29 @@ def _build(rng, sc, horizon=0.15):
     from cardillo.contacts import Sphere2Plane, Sphere2Sphere
     S = System()
     info = {}
-    if sc in ("chain", "wound"):
+    if sc == "carrier":
+        # pendulum hinged on a carrier Frame with prescribed translating and rocking motion (a joint partner without coordinates
+        # whose pose depends on time: at a restart time it is somewhere else than at the first assembly)
+        mot = gen.Motion(rng, moving=True, rotating=True)
+        carrier = mot.frame(Frame, name="carrier")
+        t0_ = 0.0
+        A_c, r_c = mot.A(t0_), mot.r(t0_)
+        hinge = r_c + A_c @ (rng.normal(size=3) * 0.3)
+        P = rng.normal(size=4); P /= np.linalg.norm(P)
+        r1 = hinge + random_unit(rng) * 0.5
+        b1 = RigidBody(1.0, gen.random_spd(rng, 3, 0.02, 0.2), q0=np.concatenate([r1, P]), u0=np.zeros(6), name="b1")
+        kindj = ["Revolute", "Spherical"][int(rng.integers(2))]
+        if kindj == "Revolute":
+            j1 = Revolute(carrier, b1, int(rng.integers(3)), r_OJ0=hinge, A_IJ0=quat_to_mat(rng.normal(size=4)), name="j1")
+        else:
+            j1 = Spherical(carrier, b1, r_OJ0=hinge, name="j1")
+        # velocity consistent with the moving hinge at t0
+        Om_c = A_c @ mot.omega_B(t0_)
+        v_h = mot.r_t(t0_) + np.cross(Om_c, hinge - r_c)
+        b1.u0 = np.concatenate([v_h + np.cross(Om_c, r1 - hinge), quat_to_mat(P).T @ Om_c])
+        S.add(carrier, b1, j1, Force(GRAV * 1.0, b1, name="g1"))
+        info.update({"joint": kindj})
+    elif sc in ("chain", "wound"):
         P = rng.normal(size=4); P /= np.linalg.norm(P)
         r1 = random_unit(rng) * 0.6
         b1 = RigidBody(1.0, gen.random_spd(rng, 3, 0.02, 0.2), q0=np.concatenate([r1, P]), u0=np.zeros(6), name="b1")
@@ -191,8 +216,22 @@ def run_case(spec, ctx):
             kw = {}
             if solver in ("Moreau", "ScipyIVP", "BackwardEuler"):
                 kw["options"] = SolverOptions(compute_consistent_initial_conditions=False)
+            if sc == "carrier" and solver == "Rattle" and False:
+                kw["options"] = SolverOptions(compute_consistent_initial_conditions=False)
             try:
-                S2.set_new_initial_state(q_k.copy(), u_k.copy(), t0=t_k, **kw)
+                try:
+                    S2.set_new_initial_state(q_k.copy(), u_k.copy(), t0=t_k, **kw)
+                except AssertionError as e0:
+                    # assembly counts a contact as closed when |g_N| <= 1e-8; a state reached just before an impact (gap open by
+                    # less than that, still approaching) is a legitimate state of the run but fails its g_N_dot0 assertion. The
+                    # restart is then done the way the other solvers' states are: without the consistency assertions.
+                    gN_ = S1.g_N(t_k, q_k) if S1.nla_N else np.zeros(0)
+                    band = S1.nla_N and np.any((gN_ > 0) & (gN_ <= 1e-8)) and "g_N_dot0" in str(e0) and "options" not in kw
+                    if not band:
+                        raise
+                    ctx.cls("restart:open_contact_within_assembly_tolerance(no_cic)")
+                    S2 = S1.deepcopy()
+                    S2.set_new_initial_state(q_k.copy(), u_k.copy(), t0=t_k, options=SolverOptions(compute_consistent_initial_conditions=False))
             except Exception as e:
                 ctx.violation("System.set_new_initial_state", "re-initialising a copy of the system with a state reached by the solver raises",
                               {**exk, "error": f"{type(e).__name__}: {e}"[:300]}, key=_kf_restart(sc, det, e))
